@@ -59,9 +59,9 @@ def masses(tier):
 BIG = 1e2            # reference trajectory leaves [-BIG, BIG] -> unstable regime, excluded
 AMP_MAX = 1e2        # reference Jacobian entry above this -> finite differences meaningless
 DET_SURE = 1e-8      # level-1 finite-difference determinant this close to one: accepted at once
-DET_RESOLVED = 1e-7  # otherwise judged only if the extrapolation error estimate is below this
+DET_RESOLVED = 1e-7  # otherwise judged only if the instrument error (same scheme on the reference) is below this
 REV_TOL = 1e-9       # property's "round-off": 1e-9 (1 + L) max(1, amplification)
-DET_TOL = 1e-6
+DET_TOL = 1e-5       # 100 x the admitted instrument error
 FD_H = 1e-3
 ORDER_GROUP = (1.7, 2.3)
 ORDER_POINT = (1.5, 2.5)
@@ -497,49 +497,56 @@ def hamiltonian(target, M, q, p):
     return -target.logp(q) + ref.kinetic(p, M)
 
 
-def fd_determinant(env, d, q0, p0, Minv):
+def fd_determinant(env, d, q0, p0, Minv, ref_map):
     """determinant of the Jacobian of the implementation's map by central differences.
     Level 1: second-order differences with step h; level 2: steps h and 2h Richardson-
     extrapolated to fourth order.  Either is accepted at once when the determinant is within
-    DET_SURE of one.  Otherwise steps 2h and 4h give a second extrapolation, the difference
-    between the two extrapolations is the error estimate (the coarser one is ~16x less
-    accurate, so this over-estimates), and the determinant is judged against DET_TOL only if
-    that estimate is below DET_RESOLVED; else the element is counted as unresolved.
-    (h = 1e-3: the round-off of a trajectory, ~1e-13 amplified, divided by 2h stays ~1e-10.)
-    returns ('ok', det, error estimate, level) | ('unresolved', det, estimate) | ('raises', h, msg)"""
+    DET_SURE of one.  Otherwise the error of the measuring instrument is measured: the very
+    same difference scheme is applied to `ref_map`, a plain numpy leapfrog whose Jacobian
+    determinant is exactly one by construction (a composition of shears), so whatever its
+    finite-difference determinant differs from one by is truncation + round-off of the scheme
+    at this point.  The implementation's determinant is judged against DET_TOL only where
+    that instrument error is below DET_RESOLVED; elsewhere the element is counted as
+    unresolved.  (h = 1e-3: round-off of a trajectory, ~1e-13 amplified, divided by 2h.)
+    returns ('ok', det, instrument error, level) | ('unresolved', det, error) | ('raises', h, msg)"""
     x0 = np.concatenate([q0, p0])
     n = 2 * d
 
-    def D2(h):
+    def impl_map(x):
+        s, a, b = env.integrate(x[:d], x[d:], Minv)
+        if s != "ok":
+            raise _Raised(a)
+        return np.concatenate([a, b])
+
+    def D2(f, h):
         J = np.zeros((n, n))
         for i in range(n):
-            cols = []
-            for sgn in (+1.0, -1.0):
-                x = x0.copy()
-                x[i] += sgn * h
-                s, a, b = env.integrate(x[:d], x[d:], Minv)
-                if s != "ok":
-                    raise _Raised(h, a)
-                cols.append(np.concatenate([a, b]))
-            J[:, i] = (cols[0] - cols[1]) / (2 * h)
+            xp = x0.copy()
+            xm = x0.copy()
+            xp[i] += h
+            xm[i] -= h
+            try:
+                J[:, i] = (f(xp) - f(xm)) / (2 * h)
+            except _Raised as e:
+                raise _Raised(h, e.args[0])
         return J
 
     try:
-        J1 = D2(FD_H)
+        J1 = D2(impl_map, FD_H)
         det1 = float(np.linalg.det(J1))
         if abs(det1 - 1.0) <= DET_SURE:
             return "ok", det1, abs(det1 - 1.0), 1
-        J2 = D2(2 * FD_H)
-        R1 = (4.0 * J1 - J2) / 3.0
-        detR1 = float(np.linalg.det(R1))
-        if abs(detR1 - 1.0) <= DET_SURE:
-            return "ok", detR1, abs(detR1 - 1.0), 2
-        J4 = D2(4 * FD_H)
-        R2 = (4.0 * J2 - J4) / 3.0
-        est = abs(detR1 - float(np.linalg.det(R2)))
-        if est <= DET_RESOLVED:
-            return "ok", detR1, est, 3
-        return "unresolved", detR1, est
+        J2 = D2(impl_map, 2 * FD_H)
+        detR = float(np.linalg.det((4.0 * J1 - J2) / 3.0))
+        if abs(detR - 1.0) <= DET_SURE:
+            return "ok", detR, abs(detR - 1.0), 2
+        with np.errstate(all="ignore"):
+            K1 = D2(ref_map, FD_H)
+            K2 = D2(ref_map, 2 * FD_H)
+            instrument = abs(float(np.linalg.det((4.0 * K1 - K2) / 3.0)) - 1.0)
+        if instrument <= DET_RESOLVED:
+            return "ok", detR, instrument, 3
+        return "unresolved", detR, instrument
     except _Raised as e:
         return "raises", e.args[0], e.args[1]
 
@@ -637,7 +644,11 @@ def run_traj(case, tab, seed):
         if amp > AMP_MAX:
             res["metrics"]["jac_skipped"] = True
         else:
-            out = fd_determinant(env, d, q0, p0, Minv)
+            def ref_map(x):
+                a, b, _ = ref.leapfrog(target, M, x[:d], x[d:], env.eps, L)
+                return np.concatenate([a, b])
+
+            out = fd_determinant(env, d, q0, p0, Minv, ref_map)
             if out[0] == "raises":
                 res["bad"].append(("neighbour_raises", f"start moved by {out[1]} raised {out[2]}"))
             elif out[0] == "unresolved":
@@ -648,7 +659,7 @@ def run_traj(case, tab, seed):
                 res["metrics"]["det_level"] = out[3]
                 if not abs(det - 1.0) <= DET_TOL:
                     res["bad"].append(("jacobian_determinant",
-                                       f"det d(q',p')/d(q,p) = {det!r} (finite-difference error estimate "
+                                       f"det d(q',p')/d(q,p) = {det!r} (finite-difference instrument error "
                                        f"{out[2]:.1e}) at q={q0.tolist()} p={p0.tolist()}"))
     return res
 
@@ -1156,7 +1167,7 @@ def run(run):
         "tolerances": {"reversibility": f"{REV_TOL} (1+L) max(1, A), A = largest entry of the Jacobian of a "
                                         f"numpy reference leapfrog map",
                        "determinant": DET_TOL, "fd_step": FD_H, "fd_accept_at_once": DET_SURE,
-                       "fd_error_estimate_at_most": DET_RESOLVED, "order_group_window": ORDER_GROUP,
+                       "fd_instrument_error_at_most": DET_RESOLVED, "order_group_window": ORDER_GROUP,
                        "order_point_window": ORDER_POINT, "hastings_rel": K_TOL,
                        "regular_regime": f"reference trajectory (forth and back) within +-{BIG}",
                        "jacobian_evaluated_if_A_at_most": AMP_MAX},
